@@ -40,6 +40,10 @@ from ..definitions import (
 
 def _get_default(field) -> Default:
     if field.default_factory is not None:
+        if getattr(field, "default_factory_takes_validated_data", False):
+            # such a factory needs the data validated so far, only pydantic itself can call it;
+            # the field stays optional, it is just never passed when it is absent
+            return NoDefault()
         return DefaultFactory(field.default_factory)
     if field.default is PydanticUndefined:
         return NoDefault()
@@ -117,7 +121,7 @@ def _get_input_shape(tp: "type[BaseModel]") -> InputShape:
                 default=_get_default(field_info),
                 metadata={},  # pydantic metadata is the list
                 original=field_info,
-                is_required=_get_default(field_info) == NoDefault(),
+                is_required=field_info.is_required(),
             )
             for field_id, field_info in tp.model_fields.items()
         ),
